@@ -1,7 +1,7 @@
 //! Core-Sylt AST owned by the harness (never derived from the repository's parser output)
 //! and its surface printer.
 
-use std::rc::Rc;
+use std::sync::Arc;
 
 pub type Name = String;
 
@@ -145,7 +145,7 @@ pub enum Expr {
     Variant(String, String, Option<Box<Expr>>),
     If(Vec<(Expr, Vec<Stmt>)>, Option<Vec<Stmt>>),
     Case(Box<Expr>, Vec<CaseArm>, Option<Vec<Stmt>>),
-    Fn(Rc<FnLit>),
+    Fn(Arc<FnLit>),
     /// redundant parentheses (layout variants only)
     Paren(Box<Expr>),
     /// verbatim surface text (fault snippets); never interpreted
@@ -253,7 +253,7 @@ pub fn field(e: Expr, f: &str) -> Expr {
     Expr::Field(Box::new(e), f.to_string())
 }
 pub fn lambda(params: Vec<(&str, Option<Ty>)>, ret: RetAnn, body: Vec<Stmt>) -> Expr {
-    Expr::Fn(Rc::new(FnLit {
+    Expr::Fn(Arc::new(FnLit {
         params: params.into_iter().map(|(n, t)| (n.to_string(), t)).collect(),
         ret,
         body,
@@ -358,7 +358,7 @@ fn num_expr(e: &mut Expr, n: &mut u32) {
             }
         }
         Expr::Fn(f) => {
-            let f = Rc::make_mut(f);
+            let f = Arc::make_mut(f);
             num_block(&mut f.body, n);
         }
         _ => {}
@@ -668,7 +668,16 @@ impl Printer {
             Expr::Bin(op, a, b) => {
                 let p = op.prec();
                 let (la, lb) = if self.opts.full_parens { (9, 9) } else { (p, p + 1) };
-                (format!("{} {} {}", self.expr(a, la), op.text(), self.expr(b, lb)), p)
+                // the operand of a unary operator is parsed at factor level (`-a * b` is `-(a * b)`):
+                // a unary child of * / is always parenthesised
+                let side = |x: &Expr, lvl: u8| -> String {
+                    if matches!(op, BinOp::Mul | BinOp::Div) && matches!(x, Expr::Un(..)) {
+                        format!("({})", self.expr(x, 0))
+                    } else {
+                        self.expr(x, lvl)
+                    }
+                };
+                (format!("{} {} {}", side(a, la), op.text(), side(b, lb)), p)
             }
             Expr::Un(op, a) => {
                 // the table is silent on unary vs * /: the operand is always an atom or parenthesised
@@ -742,7 +751,7 @@ impl Printer {
 
     fn nested_fn(&self, f: &FnLit) -> String {
         let mut p = Printer::new(PrintOpts { layout: 0, crlf: false, ..self.opts.clone() });
-        p.multi("", &Expr::Fn(Rc::new(f.clone())), "");
+        p.multi("", &Expr::Fn(Arc::new(f.clone())), "");
         let mut t = p.out;
         while t.ends_with('\n') {
             t.pop();
